@@ -963,6 +963,23 @@ def extra_stream(name, tier, seed):
         for n in names:
             lines.append("dir " + R.hexs(n.encode()))
             lines.append("dir " + R.hexs((n + "-1996").encode()))
+        # every CLDR name again, asked right after another identifier of the same language (each CLDR sibling, and the
+        # language with regions / scripts that send it elsewhere): the answer for a name must not depend on what the same
+        # process was asked before
+        bylang = collections.defaultdict(list)
+        for n in names:
+            bylang[n.split("-")[0]].append(n)
+        for lang, sibs in sorted(bylang.items()):
+            others = sibs[:12] + [lang + "-" + x for x in ("PK", "IR", "AF", "CN", "IN", "US", "Arab", "Latn", "Cyrl", "Mong", "Hebr")]
+            k = 0
+            for n in sibs:
+                for m in others:
+                    if m != n:
+                        # an identifier of another language first (whatever was remembered about this one is displaced)
+                        k += 1
+                        lines.append("dir " + R.hexs(("he", "ur-IN", "en", "fa-AF", "ku")[k % 5].encode()))
+                        lines.append("dir " + R.hexs(m.encode()))
+                        lines.append("dir " + R.hexs(n.encode()))
         return lines
     if name == "tablemisc":
         return ["cldrversion"]
@@ -1046,8 +1063,30 @@ def gen_requests(harness, cfg, tier, seed, workdir):
                 raise RuntimeError("generator %s failed: %s" % (stream, r.stderr.decode()))
         if stream != "macros":
             repeat_lines(p)
+            inject_failing_calls(p)
         files.append((stream, p))
     return files
+
+
+POISON = [b"ca-ES-valencia-macos-x!", b"de-1996-u-ca", b"en-u-ca-buddhist-h0-hybrid", b"en-u-attr-foo-a1", b"en-t-es-AR-h0-hybrid-$",
+          b"en-x-foo-$", b"sl-rozaj-biske-1994-t-en", b"en-t-es-macos-valencia-$", b"pl-Latn-PL-nedis-u-nu-latn-zz"]
+
+
+def inject_failing_calls(path, every=11):
+    """before every 11th request a call that FAILS half-way through is made by the same process (a language identifier or
+    locale text that is rejected after variants / attributes / keyword types / tfield values / private tags were already
+    collected).  The inserted requests are not judged themselves (they belong to no property's ops unless the property
+    lists `li` / `loc`); what they leave behind must not change the answer to the request that follows."""
+    tmp = path + ".inj"
+    k = 0
+    with open(path) as fi, open(tmp, "w") as fo:
+        for i, line in enumerate(fi):
+            if i % every == 7:
+                w = POISON[k % len(POISON)]
+                fo.write("%s %s\n" % (("li", "loc")[(k // len(POISON)) % 2] if k % 3 else "li", R.hexs(w)))
+                k += 1
+            fo.write(line)
+    os.replace(tmp, path)
 
 
 def repeat_lines(path, every=6):
